@@ -29,6 +29,7 @@ type project struct {
 	types []typeDef
 	rules []typeDef
 	all   bool // register every type on every type as well (not only on the root)
+	nest  bool // register the first type on the root only, the second on the first, ... (a chain of registrations)
 }
 
 // parseProject reads: <hex root> {T <hexname> J|R <hexbody>} {E <hexname> <hexbody>} [all]
@@ -45,6 +46,9 @@ func parseProject(a []string) (project, []string) {
 			i += 3
 		case "all":
 			p.all = true
+			i++
+		case "nest":
+			p.nest = true
 			i++
 		case "N":
 			p.name = string(unhex(a[i+1]))
@@ -137,6 +141,31 @@ func (p project) addTypes(root *jschema.JSchema) error {
 			}
 		}
 		return s, nil
+	}
+	if p.nest {
+		var next schema.Schema
+		for i := len(p.types) - 1; i >= 0; i-- {
+			ts, err := mk(p.types[i])
+			if err != nil {
+				return err
+			}
+			if next != nil {
+				// a regex type registers nothing: the chain ends with it
+				if js, ok := ts.(*jschema.JSchema); ok {
+					if err := js.AddType(p.types[i+1].name, next); err != nil {
+						return fmt.Errorf("addtype:%s", innerCode(err))
+					}
+				}
+			}
+			next = ts
+		}
+		if next == nil {
+			return nil
+		}
+		if err := root.AddType(p.types[0].name, next); err != nil {
+			return fmt.Errorf("addtype:%s", innerCode(err))
+		}
+		return nil
 	}
 	for _, t := range p.types {
 		ts, err := mk(t)
